@@ -33,6 +33,7 @@ TokActs ==
     {Tok(p, ad, e, TRUE) : p \in {"IN", "OUT"}, ad \in Addrs, e \in {0, 1, 2}}
     \cup {Tok("IN", ad, 3, TRUE) : ad \in Addrs}                          \* an endpoint the device does not have
     \cup {Tok("SETUP", ad, 0, TRUE) : ad \in Addrs}
+    \cup {Tok("PING", ad, e, TRUE) : ad \in Addrs, e \in {0, 2}}
     \cup {Tok("IN", ForeignAddr, 0, TRUE), Tok("OUT", ForeignAddr, 0, TRUE), Tok("SETUP", ForeignAddr, 0, TRUE)}
     \cup {Tok("IN", 0, 0, FALSE), Tok("SETUP", 0, 0, FALSE)}               \* corrupted / truncated tokens
 DataActs ==
@@ -63,7 +64,7 @@ ASetupBad     == \E a \in DataActs : Kind(a) = "setup_data" /\ ~ValidSetupData(a
 AIn0Data      == \E a \in TokActs : Kind(a) = "in0" /\ StageForIn(xf) = "din" /\ DoStep(a)
 AIn0Status    == \E a \in TokActs : Kind(a) = "in0" /\ StageForIn(xf) = "sin" /\ DoStep(a)
 AIn0Other     == \E a \in TokActs : Kind(a) = "in0" /\ StageForIn(xf) \notin {"din", "sin"} /\ DoStep(a)
-AOut0Tok      == \E a \in TokActs : Kind(a) = "out0_tok" /\ DoStep(a)
+AOut0Tok      == \E a \in TokActs : Kind(a) \in {"out0_tok", "ping0"} /\ DoStep(a)
 AOut0Status   == \E a \in DataActs : Kind(a) = "out0_data" /\ StageForOut(xf) = "sout" /\ DoStep(a)
 AOut0Other    == \E a \in DataActs : Kind(a) = "out0_data" /\ StageForOut(xf) # "sout" /\ DoStep(a)
 AAckData      == \E a \in HsActs : Kind(a) = "ack" /\ ctx.ep = 0 /\ xf.st = "din" /\ DoStep(a)
@@ -72,7 +73,7 @@ ACommitCfg    == \E a \in HsActs : Commits(a) /\ xf.req = 9 /\ DoStep(a)
 AAckStatus    == \E a \in HsActs : Commits(a) /\ xf.req \notin {5, 9} /\ DoStep(a)
 AAckOther     == \E a \in HsActs : Kind(a) = "ack" /\ ctx.ep # 0 /\ DoStep(a)
 AForeignAck   == \E a \in HsActs : Kind(a) = "foreign_ack" /\ DoStep(a)
-AEpTok        == \E a \in TokActs : Kind(a) \in {"in_ep", "in_none", "out_ep_tok", "out_none_tok"} /\ DoStep(a)
+AEpTok        == \E a \in TokActs : Kind(a) \in {"in_ep", "in_none", "ping_ep", "out_ep_tok", "out_none_tok"} /\ DoStep(a)
 AEpData       == \E a \in DataActs : Kind(a) \in {"out_ep_data", "out_none_data"} /\ DoStep(a)
 AForeign      == \E a \in TokActs : Kind(a) = "foreign" /\ DoStep(a)
 AStrayData    == \E a \in DataActs : Kind(a) = "stray_data" /\ DoStep(a)
